@@ -16,8 +16,8 @@ PROPS = '{"C11"}'
 CIPHER_CFGS = {"des": ["v3-md5-des", "v3-sha1-des"], "aes": ["v3-sha1-aes", "v3-md5-aes"]}
 
 
-def mc_privacy(cipher, steps, dev=False, export=False):
-    c = dict(Cipher=cipher, M=8, PduLens="{5, 8, 40}", MaxBuf=64, MaxSteps=steps, DEV_DesNoReset=dev)
+def mc_privacy(cipher, steps, dev=False, export=False, dev_pad=False):
+    c = dict(Cipher=cipher, M=8, PduLens="{5, 8, 40}", MaxBuf=64, MaxSteps=steps, DEV_DesNoReset=dev, DEV_PadOnce=dev_pad)
     lines = ["SPECIFICATION Spec", "CONSTANTS"]
     for k, v in c.items():
         if isinstance(v, bool):
@@ -28,7 +28,7 @@ def mc_privacy(cipher, steps, dev=False, export=False):
     if export:
         lines.append("INVARIANTS ExportDone")
     else:
-        lines += ["VIEW View", "INVARIANTS PayloadIsScopedPdu SaltFresh NoSpuriousRefusal"]
+        lines += ["VIEW View", "INVARIANTS PayloadIsScopedPdu SaltFresh NoSpuriousRefusal PadWrittenForThisMessage"]
     lines.append("CHECK_DEADLOCK FALSE")
     p = sesscheck.write_cfg("\n".join(lines) + "\n", "MC_Privacy_%s_%s.cfg" % (cipher, "x" if export else "mc"))
     return tlc.run_tlc("MC_Privacy.tla", p, workers=8, timeout=1800, coverage=not export)
@@ -70,7 +70,7 @@ def run_common(chk, tier, props, label):
     for cipher in ("des", "aes"):
         res = mc_privacy(cipher, 6 if thorough else 5)
         tlc.require_ok(res, "MC_Privacy " + cipher)
-        tlc.require_coverage(res, ["Encrypt", "Decrypt", "NoReply", "SetKeys"], "MC_Privacy " + cipher)
+        tlc.require_coverage(res, ["Encrypt", "Decrypt", "NoReply", "SetKeys", "SetKeysRefused"], "MC_Privacy " + cipher)
         chk.add_tlc(res, "MC_Privacy %s" % cipher)
     hs = histories(chk, thorough, 5 if thorough else 4)
     std = scripts.all_cfgs()
@@ -89,7 +89,7 @@ def run_common(chk, tier, props, label):
     for cipher, scr in hs.items():
         for ci, cn in enumerate(CIPHER_CFGS[cipher]):
             for si, s in enumerate(scr):
-                if not thorough and (si + ci + SEED) % 2:
+                if not thorough and (si + ci + SEED) % 3:
                     continue
                 if not any(a["a"] == "send" for a in s):
                     continue
